@@ -1064,6 +1064,28 @@ func (x *FnExec) evalCall(fr *frame, e *ECall, c *evalCtx) (Val, error) {
 			return Val{}, err
 		}
 		return Val{S: and(not(eq(v.S, "inil")), eq("(itag "+v.S+")", fmt.Sprint(x.q.typeID(t)))), T: B}, nil
+	case "isptr", "asptr":
+		// isptr(x, T): the interface value x holds a *T;  asptr(x, T): that *T (meaningful only where isptr holds)
+		v, err := arg(0)
+		if err != nil {
+			return Val{}, err
+		}
+		var tn string
+		if id, ok := e.Args[1].(*EIdent); ok {
+			tn = id.Name
+		} else if s, ok := e.Args[1].(*ESel); ok {
+			tn = s.String()
+		}
+		t, _, err := x.eng.resolveType(x, c.pkg, TypeExpr{Kind: "name", Name: tn})
+		if err != nil {
+			return Val{}, err
+		}
+		pt := types.NewPointer(t)
+		if e.Fun == "isptr" {
+			return Val{S: and(not(eq(v.S, "inil")), eq("(itag "+v.S+")", fmt.Sprint(x.q.typeID(pt)))), T: B}, nil
+		}
+		_, unbox := x.q.boxFn(pt)
+		return Val{S: fmt.Sprintf("(%s %s)", unbox, v.S), T: pt}, nil
 	case "arr", "off":
 		v, err := arg(0)
 		if err != nil {
